@@ -472,7 +472,7 @@ def glue_contextlib() -> None:
                 arg = format_funcname(callback)
 
             child_context = Context(
-                obj=manager or callback,
+                obj=callback if manager is None else manager,
                 is_async=not is_sync,
                 varname=f"{stackname}[{idx}]",
                 start_line=context.start_line,
